@@ -84,6 +84,7 @@ class SimPool:
             r = _Result()
             r.worker = w
             self.log["submitted"].append(first_index + off)
+            self.log.setdefault("items", []).append(item)
             try:
                 if self.fail_at is not None and k == self.fail_at:
                     raise RuntimeError("injected task failure")
